@@ -213,7 +213,7 @@ func Generate(r *gen.Rng) *Schema {
 		{Name: "value", Type: scalarRef()}, {Name: "nested", Type: named("itemList")}}}})
 	add("item2List", Atom{List: &List{Elem: named("item2"), Rel: "associative", Keys: []string{"name", "id"}}})
 	add("itemD", Atom{Map: &Map{Fields: []Field{
-		{Name: "port", Type: named("num")}, {Name: "proto", Type: named("str"), Default: "TCP"},
+		{Name: "port", Type: named("num")}, {Name: "proto", Type: named("str"), Default: gen.Pick(r, []string{"TCP", "UDP", "SCTP"})},
 		{Name: "value", Type: scalarRef()}}}})
 	add("itemDList", Atom{List: &List{Elem: named("itemD"), Rel: "associative", Keys: []string{"port", "proto"}}})
 
